@@ -283,6 +283,9 @@ def run_shard(ctx):
         elif i % 5 == 3 and i % 2 == 1:
             text, ordered, feats = fedgen.cte_query(r), False, {'cte-name-shapes'}
             acc.count('cte_shapes')
+        elif i % 10 == 7:
+            text, ordered, feats = fedgen.star_query(r), False, {'star-over-nested'}
+            acc.count('star_shapes')
         elif i % 10 == 2:
             # set operation across integrations with trailing ORDER BY .. LIMIT (clauses of the whole set operation)
             text, trailing_model, op = selgen.setop_trailing(r, fedgen.qual_multi)
